@@ -20,6 +20,16 @@ OBLIGATIONS (name — witness keys).  <m> is ``walk_serial`` for parallel == 1, 
                              callback raised)
   shape keys = kind ('g'|'t'|'f'), depth, accept, apex, coordsys (see rt/c13_quadtree.py);
   delay = {seed, base_ms, slow:[[n,x,y,ms]...], slow_child, slow_ms}.
+  Object history (rt/c13_history.py): ONE Pyramid object lives through a program of operations (counters, leaf visits,
+  walks, enumeration, subpyramid(apex), depth changes); every walk of the program is held against the statement for the
+  configuration the object has at that moment.  <h> is ``history_walk_serial`` / ``history_walk_parallel``.
+  rt/<h>/callback_multiset — shape keys (as constructed), program, parallel, seed, delay_ms, step, op, config, missing, extra, duplicated
+  rt/<h>/children_first    — ... step, op, parent, child, gap_s
+  rt/<h>/same_as_fresh     — ... step, op, history, fresh   (the walk of the object with a history vs the walk of a newly
+                             built object of the same final configuration)
+  rt/<h>/repeatable        — ... step, op, first_step       (the same walk twice under one configuration)
+  rt/<h>/raises            — ... step, op, exception
+  A history program that does not finish inside the watchdog is counted as undecided (a note), not as a violation.
 
 BOUNDS
   quick   : serial: all shapes below.  Parallel, workers in {2,3,5,16}: every accept-set at depth 1;
@@ -27,6 +37,9 @@ BOUNDS
             every parent is slow" runs (k = 0..3) on full and filtered depth-2/3 pyramids; ~90 seeded
             random shapes depth 2..4; 3 runs whose callbacks outlast the 1 s queue time-outs.
   thorough: the same families to depth 5 with ~4000 seeded random shapes.
+  Object history: quick: ~830 directed serial programs at depth 2 (every first operation x every apex / repetition / depth
+            change, on 5 pyramid kinds) + 150 seeded random serial programs to depth 4 + 20 programs whose walks use 2/3/5
+            worker processes; thorough: directed at depth 2 and 3, 1500 random, 120 with worker processes.
   Watchdog per walk: 40 s (quick) / 90 s (thorough); a normal walk takes 1-3 s.
 
 TRUSTED: CLOCK_MONOTONIC is shared and monotone across processes; O_APPEND writes of one short line
@@ -40,6 +53,9 @@ import time
 
 from rt import c13_quadtree as Q
 from rt import c01_batch as B
+from rt import c13_history as H
+
+HIST = ("history_walk",)
 
 CAP = 5
 WORKERS = (2, 3, 5, 16)
@@ -99,8 +115,10 @@ def read_events(logdir):
 
 
 def walk_case(case):
-    """Run one real walk; JSON-able result."""
+    """Run one real walk; JSON-able result.  (A case with a "program" is an object-history case.)"""
     import tempfile
+    if "program" in case:
+        return H.run_history(case)
     base = case.get("_dir") or tempfile.mkdtemp(prefix="c01_")
     logdir = os.path.join(base, "log_%s" % case["id"])
     os.makedirs(logdir, exist_ok=True)
@@ -297,9 +315,35 @@ def run(ctx):
         report(evaluate(sc, {"status": "done", "result": res}, watchdog))
     ctx.bound("serial walk on each of the %d distinct shapes used below" % n_serial)
 
+    # object history, serial (in-process): one object, a program of operations, every walk checked
+    hrng = H.derived_rng(ctx.seed, "c01")
+    hcases, hbound = H.serial_cases(hrng, "walk", thorough, 1500 if thorough else 150)
+    for hc in hcases:
+        ctx.case(H.case_key(hc), nontrivial=H.nontrivial(hc))
+        report(H.findings(hc, H.run_history(hc), HIST))
+    ctx.bound(hbound)
+    # ... and with worker processes: appended to the isolated batches below
+    hpar, hpbound = H.parallel_cases(hrng, "walk", thorough, 120 if thorough else 20, workers=(2, 3, 5))
+    for i, hc in enumerate(hpar):
+        hc["id"] = len(cases) + i
+    ctx.bound(hpbound)
+
     # parallel
-    results = B.dispatch("rt.c01", "walk_case", [dict(c) for c in cases], os.path.join(ctx.workdir, "par"), watchdog,
-                         batch_size=10 if not thorough else 12, max_workers=16, max_timeouts=CAP, est_case_secs=4.0)
+    nb = 10 if not thorough else 12
+    batches = [[dict(c) for c in cases[i:i + nb]] for i in range(0, len(cases), nb)]
+    batches += [[dict(c) for c in hpar[i:i + 2]] for i in range(0, len(hpar), 2)]
+    results = B.dispatch("rt.c01", "walk_case", None, os.path.join(ctx.workdir, "par"), watchdog,
+                         batch_size=nb, max_workers=16, max_timeouts=CAP, est_case_secs=4.0, batches=batches)
+    undecided = 0
+    for hc in hpar:
+        o = results.get(hc["id"], {"status": "skipped"})
+        if o["status"] != "done":
+            undecided += 1
+            continue
+        ctx.case(H.case_key(hc), nontrivial=H.nontrivial(hc))
+        report(H.findings(hc, o["result"], HIST))
+    if undecided:
+        ctx.note("%d object-history programs with worker processes did not finish inside the watchdog (or were not run): undecided" % undecided)
     skipped = 0
     for c in cases:
         o = results.get(c["id"], {"status": "skipped"})
@@ -327,6 +371,8 @@ def run(ctx):
 
 
 def replay(obligation, witness):
+    if witness.get("program") is not None:
+        return H.replay(obligation, witness, HIST)
     case = {k: witness.get(k) for k in ("kind", "depth", "accept", "apex", "coordsys", "parallel", "delay")}
     case["coordsys"] = case["coordsys"] or "astronomical"
     case["delay"] = case["delay"] or {}
